@@ -279,8 +279,10 @@ pub mod proofs {
         kani::cover!(unsafe { K::sigaction_sets } == 2, "sigaction set exactly once per signal");
     }
 
-    /// ids stay fresh after a removal; a stale id never removes a later action
-    fn fresh_ids(by_signal: bool) {
+    /// ids stay fresh after a removal; a stale id never removes a later action.
+    /// `c02`: judge only the delivery (C02: the action whose registration returned
+    /// and which nobody removed runs exactly once, the removed one does not).
+    fn fresh_ids(by_signal: bool, c02: bool) {
         reg::init_globals();
         let mut b = reg::StateBuilder::new();
         b.slot(SA, 0, 0);
@@ -290,17 +292,23 @@ pub mod proofs {
         if by_signal {
             #[allow(deprecated)]
             let r = unregister_signal(SA);
-            assert!(r, "C05: unregister_signal's result does not say whether it removed anything");
+            assert!(c02 || r, "C05: unregister_signal's result does not say whether it removed anything");
         } else {
-            assert!(unregister(reg::make_sigid(SA, 1)), "C05: unregister of a live id returned false");
+            let r = unregister(reg::make_sigid(SA, 1));
+            assert!(c02 || r, "C05: unregister of a live id returned false");
         }
         let d = ok(unsafe { register(SA, || hit(4)) });
         assert!(d.is_some(), "C05: registering a catchable signal failed");
         let nid = reg::sigid_parts(d.unwrap()).1;
-        assert!(nid == 2, "C05: the id handed out is not a fresh one (ids must never repeat)");
-        assert!(!unregister(reg::make_sigid(SA, 1)), "C05: unregister of a stale id returned true (and removed a later action)");
+        assert!(c02 || nid == 2, "C05: the id handed out is not a fresh one (ids must never repeat)");
+        // the application still holds the id of the removed action and uses it again
+        let stale = unregister(reg::make_sigid(SA, 1));
+        assert!(c02 || !stale, "C05: unregister of a stale id returned true (and removed a later action)");
         deliver(SA);
         unsafe {
+            if c02 {
+                assert!(L::n == 1 && L::log[0] == 4, "C02: a delivery did not run exactly the registered, not removed actions (removing an action by its id took a later action with it)");
+            }
             assert!(L::n == 1 && L::log[0] == 4, "C05: a stale id removed a later action, or a removed action still runs");
         }
         assert!(installed(SA), "C05: a taken-over signal lost the library's handler (with SA_RESTART|SA_SIGINFO)");
@@ -310,12 +318,18 @@ pub mod proofs {
     #[kani::proof]
     #[kani::unwind(7)]
     pub fn c05_q_fresh_ids_after_unregister() {
-        fresh_ids(false);
+        fresh_ids(false, false);
     }
     #[kani::proof]
     #[kani::unwind(7)]
     pub fn c05_q_fresh_ids_after_unregister_signal() {
-        fresh_ids(true);
+        fresh_ids(true, false);
+    }
+    /// C02 view of the same history (the id-related C05 verdicts do not mask it)
+    #[kani::proof]
+    #[kani::unwind(7)]
+    pub fn c02_q_removed_id_used_again() {
+        fresh_ids(false, true);
     }
 
     /// unregister of ANY (signal, u128 id) pair from a concrete three-action state
